@@ -173,6 +173,9 @@ class Aggregate(list):
             else:
                 # ListElement
                 # FIXME validation
+                if not self.listelements:
+                    msg = f"{clsnm} can't contain list elements: {member!r}"
+                    raise TypeError(msg)
                 if type(member) is not str:
                     msg = (
                         f"{clsnm} can only contain str as list element, "
